@@ -493,6 +493,23 @@ func (e *Engine) step(st *State) {
 		return
 	case *ssa.If:
 		c := e.get(st, fr, x.Cond)[0]
+		if cn := st.norm(c); !cn.IsTrue() && !cn.IsFalse() && e.Mode != ModeSpec && e.inUncontractedLoop(fr) {
+			// symbolic only if both outcomes are possible under the path condition
+			if e.Feas.Feasible(append(append([]*Term{}, st.pc...), cn)) && e.Feas.Feasible(append(append([]*Term{}, st.pc...), Not(cn))) {
+				// a counter compared with a bound that the path condition limits to a small constant
+				// (a slice taken from a table, say) still gives a bounded trip count: keep unrolling
+				bounded := false
+				if (cn.Op == "<" || cn.Op == "<=") && len(cn.Args) == 2 && cn.Args[0].Op == "int" && !cn.Args[1].hasQ {
+					bounded = !e.Feas.Feasible(append(append([]*Term{}, st.pc...), Lt(IntC(64), cn.Args[1])))
+				}
+				if !bounded {
+					if os.Getenv("GOVC_DEBUGLOOP") != "" {
+						fmt.Fprintf(os.Stderr, "symbolic exit test at %s: %s\n", e.pos(x.Pos()), cn.String())
+					}
+					e.markSymbolicExit(fr)
+				}
+			}
+		}
 		if st.decide(c) {
 			e.jump(st, fr, fr.block.Succs[0])
 		} else {
@@ -512,6 +529,37 @@ func (e *Engine) step(st *State) {
 		unsupported("instruction %T in %s", ins, fr.fn)
 	}
 	fr.ip++
+}
+
+// markSymbolicExit records, for every contract-less loop that contains the current block and that
+// this branch can leave, that its trip count depends on a symbolic condition (such a loop is cut
+// with the trivial invariant after a few iterations instead of being unrolled).
+func (e *Engine) markSymbolicExit(fr *Frame) {
+	li := e.loopsOf(fr.fn)
+	for idx, ld := range li.byHeader {
+		// only the test in the loop's header decides the trip count; a symbolic early exit from the
+		// body (return / break under a data-dependent condition) does not make the loop unbounded
+		if ld.contract != nil || ld.header != fr.block {
+			continue
+		}
+		for _, s := range fr.block.Succs {
+			if !ld.blocks[s] {
+				if fr.symExit == nil {
+					fr.symExit = map[int]bool{}
+				}
+				fr.symExit[idx] = true
+			}
+		}
+	}
+}
+
+func (e *Engine) inUncontractedLoop(fr *Frame) bool {
+	for _, ld := range e.loopsOf(fr.fn).byHeader {
+		if ld.contract == nil && ld.header == fr.block {
+			return true
+		}
+	}
+	return false
 }
 
 func (e *Engine) jump(st *State, fr *Frame, to *ssa.BasicBlock) {
